@@ -564,9 +564,20 @@ impl Prop for ConnProp {
                     })
                 };
                 nodesim::spawn_fault_driver_ex(&handle, &net, &faults, Some(Arc::new(move |node, vanish| {
-                    if node >= 1 && node <= n && !dead.lock().unwrap().contains_key(&node) {
-                        dead.lock().unwrap().insert(node, vanish);
-                        push(&log, &h, node, K::Killed);
+                    if node >= 1 && node <= n {
+                        let mut d = dead.lock().unwrap();
+                        match d.get(&node).cloned() {
+                            None => {
+                                d.insert(node, vanish);
+                                drop(d);
+                                push(&log, &h, node, K::Killed);
+                            }
+                            // a later incarnation is killed: it counts as vanished if any of its
+                            // deaths was silent (a survivor may still hold that connection)
+                            Some(v) => {
+                                d.insert(node, v || vanish);
+                            }
+                        }
                     }
                 })), Some(restart));
             }
